@@ -259,3 +259,15 @@ DECL += ['int r1(int x) { if (x > 0) return 1; }', 'int r2(int x) { if (x > 0) {
          'int r16(int x) { if (x) { } else return 1; }', 'int r17(int x) { { } }', 'bool r18() { return 1 < 2; }', 'int r19(int x) { while (x) { if (x) return 1; else return 2; } }',
          'void ex() { exit(); }', 'dynamic Dyn(int a); void sp() { spawn Dyn(1); }', 'dynamic Dyn(int a); int nf() { return numOf(Dyn); }', 'int ex2() { return exit(); }', 'void sp2() { spawn Nope(1); }',
          'dynamic Dyn(int a); bool fd() { return forall (p : Dyn) true; }', 'dynamic Dyn(int a); int sd() { return sum (p : Dyn) 1; }']
+
+# every alternative of the property grammar as a query that type-checks cleanly on the crash model (names of BASE_DECL: g, b, x, y, a, s, f; process P with location L):
+# what the query back end does after a successful type check (classification of the property, strategy bookkeeping) runs only for these
+QUERY_OK = ['A[] g >= 0', 'E<> b', 'A<> P.L', 'E[] not b', 'b --> g > 0', 'A[] not deadlock', 'sup: g', 'sup{b}: g, a[0]', 'inf: x', 'inf{g > 0}: g', 'bounds: g', 'bounds{b}: a[1]',
+            'control: A[] b', 'control: A<> b', 'control: A[ b U g > 0 ]', 'control: A[ b W g > 0 ]', 'E<> control: A<> b', 'control_t*(2,1): A<> b', 'control_t*(10): A<> b', 'control_t*(g + 10): A[ not b U g > 0 ]',
+            'control_t*: A<> b', 'control_t*: A[ b U P.L ]', '{g, b} control: A<> b', '{} control: A[] b', 'control: A[] (b && A<> g > 0)',
+            'Pr[<=10](<> b)', 'Pr[<=10]([] b)', 'Pr[#<=10](<> b)', 'Pr[x<=10](<> b)', 'Pr[<=10](<> b) >= 0.5', 'Pr[<=10]([] b) <= 0.25', 'Pr[<=10](<> b) >= Pr[<=20](<> g > 0)', 'Pr[<=10](b U g > 0)', 'Pr[<=10; 7](<> b)',
+            'E[<=10; 100](max: g)', 'E[#<=10; 50](min: g + 1)', 'E[<=10](max: g)', 'simulate [<=10] { g, x }', 'simulate [<=10; 5] { g }', 'simulate [<=10; 5] { g } : b', 'simulate [<=10; 5] { g } : 2 : b',
+            'minE(g)[<=10] {a[0]} -> {x} : <> b', 'maxE(g)[<=10] : <> b', 'minE(g)[#<=10] {g} -> {} : <> b', 'minPr[<=10] : <> b', 'maxPr[<=10] {g} -> {x} : <> b',
+            'strategy S1 = control: A<> b', 'strategy S2 = minE(g)[<=10] : <> b', 'strategy S3 = loadStrategy {g} -> {x} ("f.json")', 'strategy S4 = control_t*(5): A<> b',
+            'A[] forall (i : int[0,2]) a[i] >= 0', 'E<> exists (i : id_t) a[i % 3] == 1', 'E<> sum (i : int[0,2]) a[i] > 2', 'A[] s.a >= 0 imply s.b']
+
